@@ -1,11 +1,14 @@
 package subscriber
 
 import (
+	"sync"
+
 	"github.com/emirpasic/gods/maps/treemap"
 	"github.com/emirpasic/gods/utils"
 )
 
 type BlockCache struct {
+	mu   *sync.RWMutex
 	data *treemap.Map
 	size int
 }
@@ -17,12 +20,16 @@ type BlockData struct {
 
 func NewBlockCache(size int) *BlockCache {
 	return &BlockCache{
+		mu:   &sync.RWMutex{},
 		data: treemap.NewWith(utils.UInt64Comparator),
 		size: size,
 	}
 }
 
 func (c BlockCache) PutBlockData(hash string, number int64, timestamp uint64) {
+	c.mu.Lock()
+	defer c.mu.Unlock()
+
 	c.data.Put(timestamp, BlockData{
 		Hash:   hash,
 		Number: number,
@@ -35,6 +42,9 @@ func (c BlockCache) PutBlockData(hash string, number int64, timestamp uint64) {
 }
 
 func (c BlockCache) GetOldestBlock(timetsamp uint64) (string, int64) {
+	c.mu.RLock()
+	defer c.mu.RUnlock()
+
 	key, value := c.data.Ceiling(timetsamp)
 	if key == nil {
 		return "", 0
